@@ -9,7 +9,7 @@ EXPLANATION = (
     "(vacant entry, lock held), spawned as its own task, with a single pay site outside any loop; (A4) pay only through "
     "add_payment_attempt==Ok; (A5) every lifecycle path answers exactly once, so the table entry (mutual exclusion) lives "
     "from spawn to answer; (A6) the provider clauses the restart path relies on: wait_payment reports none only after every listed pending part was "
-    "waited for (C15-V1..V5) and pay reports failure only when final (C16-D). Overlap of two lifecycles after the answer is not enumerated."
+    "waited for (C15-V1..V5) and pay reports failure only when final (C16-D); (A7) the Free marker is written only generation-guarded, so a superseded attempt cannot erase a newer in-flight marker (C02-S7). Overlap of two lifecycles after the answer is not enumerated."
 )
 ASSUMPTIONS = ["C15/C16: the provider re-checks the node before reporting failure", "tokio::sync::Mutex provides mutual exclusion on the payments table"]
 
@@ -30,3 +30,7 @@ def run(F, X, rep):
     import rules_hh as H
     if H.need_hh(C, rep, "C05-A3"):
         H.p4b_answer_only_via_lifecycle(C, rep, "C05-A3")
+    # A7: a late mark_failed of a superseded attempt must not erase the newer attempt's in-flight marker (after a crash the
+    # hash would look Free and be paid again): the Free write is generation-guarded (C02-S7)
+    import rules_store as S
+    S.s7_generation_guard(C, rep, "C05-A7")
